@@ -38,9 +38,12 @@ class Pos:
         self.name, self.body, self.insts, self.tags = name, body, insts, tags
 
     def source(self):
-        s = HEADER + HELPERS + "\n// BEGIN-DEF\n" + self.body + "\n// END-DEF\n\npub fn observe() -> Vec<(&'static str, Vec<(String, bool)>)> {\n    let mut out = Vec::new();\n"
+        header = HEADER
+        if "names_like_scale_info_items" in self.tags:
+            header = "#![allow(dead_code, unused_imports, unused_variables, non_camel_case_types)]\nuse scale_info::TypeInfo;\nuse std::marker::PhantomData;\n"
+        s = header + HELPERS + "\n// BEGIN-DEF\n" + self.body + "\n// END-DEF\n\npub fn observe() -> Vec<(&'static str, Vec<(String, bool)>)> {\n    let mut out = Vec::new();\n"
         for inst, _pattern in self.insts:
-            s += "    {\n        let m: MetaType = meta_type::<%s>();\n        let t: Type = <%s as TypeInfo>::type_info();\n        let _ = m;\n" % (inst, inst)
+            s += "    {\n        let m: scale_info::MetaType = scale_info::meta_type::<%s>();\n        let t: scale_info::Type = <%s as TypeInfo>::type_info();\n        let _ = m;\n" % (inst, inst)
             s += "        out.push((%s, t.type_params.iter().map(|p| (p.name.to_string(), p.ty.is_some())).collect()));\n    }\n" % json.dumps(inst)
         s += "    out\n}\n"
         return s
@@ -125,6 +128,19 @@ def positives(seed, n_seeded):
     # two separate codec attributes on one variant, skip not first
     each("S", "<T>", "", [("", "T")], [("S<u8>", [("T", S)])], ["codec_skip", "codec_skip_variant", "two_codec_attributes"], only=["enum_named", "enum_tuple"],
          variants_extra="    #[codec(index = 9)]\n    #[codec(skip)]\n    Cached(NoInfoOf<T>),\n    #[codec(index = 10)]\n    #[doc = \"x\"]\n    #[codec(skip)]\n    CachedNamed { y: NoInfo },\n")
+    # a crate path given through an alias that exists only inside one module, followed by a derive elsewhere without the attribute
+    add("pub mod inner {\n    use scale_info as si;\n    use scale_info::TypeInfo;\n    #[derive(TypeInfo)]\n    #[scale_info(crate = si)]\n    pub struct First<T>(pub T);\n}\n#[derive(TypeInfo)]\npub struct S<T> {\n    a: inner::First<T>,\n    b: T,\n}",
+        [("S<u8>", [("T", S)]), ("inner::First<u16>", [("T", S)])], ["crate_attr", "two_derives"])
+    add("#[derive(TypeInfo)]\npub struct S<T> {\n    b: T,\n}\npub mod inner {\n    use scale_info as si;\n    use scale_info::TypeInfo;\n    #[derive(TypeInfo)]\n    #[scale_info(crate = si)]\n    pub enum Second<T> { A(T), B }\n}",
+        [("S<u8>", [("T", S)]), ("inner::Second<u16>", [("T", S)])], ["crate_attr", "two_derives"])
+    # inline bounds that mention a lifetime parameter
+    each("S", "<'a, T: 'a>", "", [("", "&'a T"), ("", "u8")], [("S<'static, u8>", [("T", S)])], ["lifetime", "lifetime_in_inline_bound"])
+    each("S", "<'a, 'b, T: 'a + Clone, U: 'b>", "", [("", "&'a T"), ("", "&'b [U]")], [("S<'static, 'static, u8, String>", [("T", S), ("U", S)])], ["lifetime", "lifetime_in_inline_bound"])
+    # user types that happen to be named like items of scale-info itself
+    add("#[derive(TypeInfo)]\npub struct Path<T> {\n    segments: Vec<T>,\n}\n#[derive(TypeInfo)]\npub enum Type<T> { A(T), B { x: Path<T> } }",
+        [("Path<u8>", [("T", S)]), ("Type<String>", [("T", S)])], ["names_like_scale_info_items"])
+    add("#[derive(TypeInfo)]\npub struct Fields<T>(pub T);\n#[derive(TypeInfo)]\npub struct Variants<T>(pub Vec<T>);\n#[derive(TypeInfo)]\npub struct TypeParameter;\n#[derive(TypeInfo)]\npub struct S<T> {\n    a: Fields<T>,\n    b: Variants<T>,\n    c: TypeParameter,\n    d: Option<Fields<u8>>,\n}",
+        [("S<u8>", [("T", S)])], ["names_like_scale_info_items"])
     # 7. #[codec(skip)] members need no type info
     each("S", "<T>", "", [("#[codec(skip)]\n    ", "NoInfo"), ("", "T")], [("S<u8>", [("T", S)])], ["codec_skip"])
     each("S", "<T>", "", [("#[codec(skip)]\n    ", "NoInfoOf<T>"), ("", "T")], [("S<u8>", [("T", S)])], ["codec_skip", "codec_skip_generic"])
